@@ -96,6 +96,8 @@ def segment(rnd, data, mode=None):
             n = len(data)
         else:
             n = rnd.choice([1, 2, 3, 7, 50, 300, 4095, 4096, 4097, 9000])
+        if len(data) > 40000 and n < 300 and rnd.random() < 0.97:
+            n = rnd.choice([300, 1000, 4096, 4097])      # keep the number of reads of a huge stream bounded
         out.append(data[i:i + n])
         i += n
     return out
@@ -125,13 +127,38 @@ def junk_line(rnd, live):
         if True else b""
 
 
+INFLATE_SIZES = [480, 900, 990, 1000, 1010, 1020, 1023, 1024, 1025, 1040, 1100, 1500, 2047, 2048, 4095, 4096, 4097, 9000, 70000, 1 << 20]
+
+
+def inflate(rnd, l):
+    """The same well-formed line with one over-long parameter: its trailing text (after ' :') or its last word
+    grows to a length around the daemon's line and message buffers, so that a line that is *acted on* (a reply
+    for a live tag, a password, user info, a host name) carries more than any fixed buffer holds."""
+    n = rnd.choice(INFLATE_SIZES) + rnd.choice([0, 0, -1, 1, 7])
+    fill = bytes(rnd.choice(b"abcdefghijklmnopqrstuvwxyzABCXYZ0123456789 %:") for _ in range(min(n, 4096)))
+    fill = (fill * (n // max(1, len(fill)) + 1))[:n]
+    if b" :" in l:
+        head, _, tail = l.partition(b" :")
+        verb = tail.split(b" ")[0] if head.split(b" ")[1:2] in ([b"X"], [b"x"]) else b""
+        if verb in (b"OK", b"NO", b"AGAIN", b"MORE"):
+            return head + b" :" + verb + b" " + fill
+        return head + b" :" + tail[:20] + fill
+    w = l.split(b" ")
+    if len(w) >= 3:
+        w[-1] = w[-1] + fill.replace(b" ", b"_")
+        return b" ".join(w)
+    return l
+
+
 def mutate_stream(rnd, lines):
     """grammar-aware mutator for the robustness part"""
     out = []
     for l in lines:
         k = rnd.random()
-        if k < 0.55:
+        if k < 0.5:
             out.append(l)
+        elif k < 0.55:
+            out.append(inflate(rnd, l))
         elif k < 0.65:
             out.append(l[:rnd.randrange(len(l) + 1)])                    # truncated line
         elif k < 0.72:
@@ -176,6 +203,13 @@ class BytesProfile:
             return {"profile": "bytes", "mode": "base", "cfg": cfg, "lines": [l.decode("latin1") for l, _ in lines]}, base
         plan = {"profile": "bytes", "mode": mode, "cfg": cfg}
         S = [l for l, _ in lines]
+        if mode == "indiff" and rnd.random() < 0.35:
+            # a few well-formed lines carry an over-long parameter (same treatment required however it is chunked)
+            for _ in range(rnd.choice([1, 1, 2, 4])):
+                j = rnd.randrange(len(S))
+                S[j] = inflate(rnd, S[j])
+            lines = [(S[j], lines[j][1]) for j in range(len(S))]
+            plan["inflated"] = True
         if mode == "robust":
             stream = mutate_stream(rnd, S) if rnd.random() < 0.8 else \
                 [bytes(rnd.randrange(256) for _ in range(rnd.randint(1, 400))) for _ in range(rnd.randint(1, 30))]
@@ -201,6 +235,8 @@ class BytesProfile:
     def run(self, plan, tag):
         res = RawResult()
         res.extra = {}
+        if plan.get("inflated"):
+            res.extra["inflated_indiff_runs"] = 1
         mode = plan["mode"]
         cfg = plan["cfg"]
         res.transcript = [("conf", render_cfg(cfg, "."))]
